@@ -36,6 +36,11 @@ def Node.beqList : List (Bytes × Node) → List (Bytes × Node) → Bool
   | _, _ => false
 end
 
+def Node.optBeq : Option Node → Option Node → Bool
+  | none, none => true
+  | some a, some b => Node.beq a b
+  | _, _ => false
+
 def Dir.optBeq : Option Dir → Option Dir → Bool
   | none, none => true
   | some a, some b => Node.beqList a b
